@@ -99,6 +99,7 @@ func GetKeyFromPassword(passwd string, cname types.PrincipalName, realm string, 
 				if err != nil {
 					return key, et, fmt.Errorf("error getting encryption type: %v", err)
 				}
+				sk2p = et.GetDefaultStringToKeyParams()
 			}
 			salt = string(eti[0].Salt)
 			paID = pa.PADataType
@@ -116,6 +117,7 @@ func GetKeyFromPassword(passwd string, cname types.PrincipalName, realm string, 
 				if err != nil {
 					return key, et, fmt.Errorf("error getting encryption type: %v", err)
 				}
+				sk2p = et.GetDefaultStringToKeyParams()
 			}
 			if len(et2[0].S2KParams) == 4 {
 				sk2p = hex.EncodeToString(et2[0].S2KParams)
